@@ -207,9 +207,29 @@ def gen_bind() -> str:
     return "\n".join(lines)
 
 
-GENERATORS = {"Host": gen_host, "Pio": gen_pio, "Buzzer": gen_buzzer, "Bind": gen_bind, "Ops": gen_ops, "Eval": gen_eval, "Types": gen_types}
+def gen_layout() -> str:
+    """TRANSLATED (harness/pytolean.py), not extracted: the character-level layout functions of the parser as Lean definitions (C07).
+    A function outside the translator's subset (pytolean.Unsupported) is left out of the text and reported as a broken obligation by `regenerate`."""
+    import importlib
+    import pytolean
+    if pytolean.selftest(quiet=True):
+        raise RuntimeError("harness/pytolean.py fails its self-test (run it as a script)")
+    pa = importlib.import_module("Reduino.transpile.parser")
+    return pytolean.module_text("Reduino.Gen.Layout", [pa._indent_of, pa._strip_inline_comment], imports=["Reduino.Lang.Layout"])
+
+
+def gen_escape() -> str:
+    """TRANSLATED (harness/pytolean.py): `_escape_string_literal` of the parser (C06)"""
+    import importlib
+    import pytolean
+    pa = importlib.import_module("Reduino.transpile.parser")
+    return pytolean.module_text("Reduino.Gen.Escape", [pa._escape_string_literal], imports=["Reduino.Lang.Escape"])
+
+
+GENERATORS = {"Layout": gen_layout, "Escape": gen_escape, "Host": gen_host, "Pio": gen_pio, "Buzzer": gen_buzzer, "Bind": gen_bind, "Ops": gen_ops, "Eval": gen_eval, "Types": gen_types}
 # generators that are slow (they probe the transpiler) run only for the checks that need them, and in setup
-NEEDS = {"Bind": {"C08"}}
+# translated functions are regenerated for the check whose theorems rest on them (an untranslatable source breaks THAT check's obligation)
+NEEDS = {"Bind": {"C08"}, "Layout": {"C07"}, "Escape": {"C06"}}
 
 
 def regenerate(ctx=None, only=None):
@@ -222,8 +242,12 @@ def regenerate(ctx=None, only=None):
     for name, fn in GENERATORS.items():
         if only and name not in only:
             continue
+        errors = []
         try:
-            text = "-- GENERATED by harness/extract.py from /repo/src on every run. Do not edit.\n" + fn()
+            text = fn()
+            if isinstance(text, tuple):     # a translator: the text without the functions it could not translate, and why
+                text, errors = text
+            text = "-- GENERATED by harness/extract.py from /repo/src on every run. Do not edit.\n" + text
         except Exception as e:  # the source no longer has the shape the extractor reads
             if ctx is not None:
                 ctx.broken.append(f"extract {name}: {type(e).__name__}: {e}")
@@ -233,6 +257,10 @@ def regenerate(ctx=None, only=None):
         if not path.exists() or path.read_text() != text:
             path.write_text(text)
             changed.append(name)
+        for e in errors:                 # after writing: the obligations about the missing definitions stop building, too
+            if ctx is None:
+                raise e
+            ctx.broken.append(f"translate {name}: {e}")
     return changed
 
 
